@@ -9,6 +9,7 @@ import json
 import os
 import re
 import subprocess
+os.environ["VERIF_EVIDENCE_DIR"] = "/verif/.work/evidence"   # never the committed evidence
 import sys
 import time
 
